@@ -205,11 +205,11 @@ def b_pool(kind, cfg):
     return pool
 
 
-# the few most different foreign values (used for the longest B lists of the quick tier)
+# the most different foreign values first (used for the longest B lists)
 SUBPOOL = 3
 
 
-def b_subpool(kind, cfg):
+def b_subpool(kind, cfg, size=SUBPOOL):
     pool = b_pool(kind, cfg)
     want = {
         "ToCSV": ["int", "hist_no_csv", "pair_output_scalar", "str_csv", "hist3d"],
@@ -225,11 +225,22 @@ def b_subpool(kind, cfg):
     }[kind]
     sub = [n for n in want if n in pool]
     for n in pool:
-        if len(sub) >= SUBPOOL:
+        if len(sub) >= size:
             break
         if n not in sub:
             sub.append(n)
-    return sub[:SUBPOOL]
+    return sub[:size]
+
+
+def b_pool_for(kind, cfg, blen, tier):
+    """The foreign values from which B lists of length *blen* are formed in a tier."""
+    if tier == "thorough":
+        if blen == 3 and kind == "LaTeXToPDF":
+            return b_subpool(kind, cfg, 8)   # every flow is run under all completion schedules
+        return b_pool(kind, cfg)
+    if blen == 3:
+        return b_subpool(kind, cfg, SUBPOOL)
+    return b_pool(kind, cfg)
 
 
 def make_b(name):
